@@ -145,6 +145,25 @@ class Gen:
         self.hostile_index = hostile_index
         self.piola = piola
         self.rejects = 0
+        # extra leaves (e.g. variables) offered to the descent: list of expressions
+        self.extra = []
+        self.extra_prob = 0.4
+
+    def extra_leaf(self, shape, rmode):
+        """One of the extra leaves with the requested shape (or a component of one), else None."""
+        if not self.extra or self.rng.random() > self.extra_prob:
+            return None
+        shape = tuple(shape)
+        cands = [x for x in self.extra if tuple(x.ufl_shape) == shape]
+        if shape == ():
+            cands = cands + [x for x in self.extra if x.ufl_shape]
+        if not cands:
+            return None
+        x = self.rng.choice(cands)
+        self.note("leaf:extra")
+        if tuple(x.ufl_shape) != shape:
+            x = x[tuple(self.rng.randrange(d) for d in x.ufl_shape)]
+        return self.R(x, rmode) if rmode == "need" else x
 
     # ------------------------------------------------------------------ helpers
     def note(self, name):
@@ -183,6 +202,9 @@ class Gen:
     def scalar_leaf(self, rmode, dd):
         U = self.U
         rng = self.rng
+        x = self.extra_leaf((), rmode)
+        if x is not None:
+            return x
         for _ in range(20):
             r = rng.random()
             if r < 0.40:
@@ -238,6 +260,9 @@ class Gen:
     def tensor_leaf(self, shape, rmode, dd):
         U = self.U
         rng = self.rng
+        x = self.extra_leaf(shape, rmode)
+        if x is not None:
+            return x
         names = U.spaces_with_shape(shape)
         if not self.piola:
             names = [n for n in names if U.spaces[n].ufl_element().pullback.is_identity]
